@@ -161,6 +161,14 @@ func (x *fx) eval(e *Expr, env *specEnv) *Val {
 		o := *env.old
 		o.bound = env.bound
 		o.old = &o
+		// names that are not parameters (loop variables, results) keep their current value
+		oldLook, curLook := env.old.look, env.look
+		o.look = func(n string) *Val {
+			if v := oldLook(n); v != nil {
+				return v
+			}
+			return curLook(n)
+		}
 		r := x.eval(e.Args[0], &o)
 		switch r.T.Underlying().(type) {
 		case *types.Slice, *types.Pointer:
